@@ -12,7 +12,7 @@ for f in os.listdir(src):
     if f.startswith("demo_"):
         shutil.copy(os.path.join(src, f), dst)
 env = dict(os.environ, PYTHONPATH=f"{src}/src", PSYCLONE_CONFIG=f"{src}/config/psyclone.cfg")
-demo = [f for f in os.listdir(dst) if f.startswith("demo_")]
+demo = sorted((f for f in os.listdir(dst) if f.startswith("demo_")), key=lambda f: (not f.endswith(".py"), f))
 demo_rc = subprocess.run(["/venv/bin/python", os.path.join(src, demo[0])], env=env, cwd=src, stdout=subprocess.PIPE, stderr=subprocess.STDOUT, text=True).returncode if demo else None
 r = subprocess.run(["./check", pid], cwd="/verif", env=dict(os.environ, VERIF_REPO=src), stdout=subprocess.PIPE, stderr=subprocess.STDOUT, text=True)
 lines = [l for l in r.stdout.splitlines() if l.startswith("VIOLATION") or l.startswith(pid + " ")]
